@@ -23,6 +23,18 @@ def install(w):
         return VBool(z3.Implies(ex.truthy(a), ex.truthy(b)))
     f["implies"] = implies
 
+    def at(ex, fr, seq, i):
+        """seq[i] for an index known to be in range: plain selection (no negative-index wrap)"""
+        it = i.t if isinstance(i, VInt) else z3.IntVal(i)
+        if isinstance(seq, VTup):
+            seq = ex.world.ext.as_seq(ex, seq)
+        if isinstance(seq, VSeq):
+            return ex.world.ext.from_box(ex, z3.Select(seq.arr, it), seq.elem)
+        if isinstance(seq, VObj):
+            return VObj(z3.Select(sym.seq_arr(seq.t), it))
+        raise Unsupported("at() on %r" % (seq,))
+    f["at"] = at
+
     def iff(ex, fr, a, b):
         return VBool(ex.truthy(a) == ex.truthy(b))
     f["iff"] = iff
